@@ -174,19 +174,20 @@ example : ∃ st sd m, Reach (init 2 2) st ∧ st.senders[1]? = some sd ∧ sd.p
 
 /-- **Next returns once a value is available, the sender closes or its context expires.** In any
 state in which `Next` is parked in its main `select` and one of these holds, a step of the receiver
-is enabled and takes `Next` strictly closer to its return; in the drain it never waits at all (it
+is enabled and takes `Next` strictly closer to its return; in the drain (if the source has one) it never waits at all (it
 returns with the next step of the receiver); and the stable part of the condition — a buffered
 value, the sender's `Close`, the expired context — persists while `Next` is parked. -/
 theorem next_never_stuck {st : State} :
     (st.rpc = .next →
       (st.buf ≠ [] ∨ (∃ sd ∈ st.senders, canHandoff st sd = true) ∨ st.senderDone = true ∨ st.rctx = true) →
       ∃ l st', isRecvLabel l = true ∧ step st l = some st' ∧ rstage st'.rpc < rstage st.rpc) ∧
-    (st.rpc = .drain → ∃ l st', isRecvLabel l = true ∧ step st l = some st' ∧ st'.rpc = .idle) ∧
+    (nextDrains = true → st.rpc = .drain →
+      ∃ l st', isRecvLabel l = true ∧ step st l = some st' ∧ st'.rpc = .idle) ∧
     (st.rpc = .next → (st.buf ≠ [] ∨ st.senderDone = true ∨ st.rctx = true) →
       ∀ l st', step st l = some st' →
         st'.rpc ≠ .next ∨ (st'.buf ≠ [] ∨ st'.senderDone = true ∨ st'.rctx = true)) := by
   have hF : NextFacts := ⟨by decide, by decide, by decide, fun _ => by decide, fun _ => by decide, by decide⟩
-  exact ⟨fun hpc hc => next_enabled hF hpc hc, fun hpc => drain_enabled hF (by decide) hpc,
+  exact ⟨fun hpc hc => next_enabled hF hpc hc, fun hd hpc => drain_enabled hF hd hpc,
     fun hpc hc l st' hs => next_cond_stable hpc hc hs⟩
 
 
